@@ -850,7 +850,9 @@ impl<'a> Gen<'a> {
         if depth == 0 {
             return self.scalar_type();
         }
+        let agg_rets: Vec<T> = self.prog.fns.iter().map(|f| f.ret.clone()).filter(|t| matches!(t, T::Tuple(_) | T::Struct(_) | T::Enum(_))).collect();
         match self.rng.below(12) {
+            4 | 5 if !agg_rets.is_empty() => self.rng.pick(&agg_rets).clone(),
             0 if !self.prog.structs.is_empty() => T::Struct(self.rng.below(self.prog.structs.len())),
             1 if !self.prog.enums.is_empty() => T::Enum(self.rng.below(self.prog.enums.len())),
             2 => T::Opt(Box::new(self.scalar_type())),
@@ -949,6 +951,15 @@ impl<'a> Gen<'a> {
             return self.lit_expr(t, &v);
         }
         let d = depth - 1;
+        if matches!(t, T::Tuple(_) | T::Struct(_) | T::Enum(_)) && self.rng.bool() {
+            let cands: Vec<usize> = (0..fidx).filter(|i| &self.prog.fns[*i].ret == t).collect();
+            if !cands.is_empty() {
+                let f = *self.rng.pick(&cands);
+                if let Some(args) = self.call_args(f, env, fidx, d) {
+                    return E::Call(f, args);
+                }
+            }
+        }
         // Type-independent forms.
         match self.rng.below(14) {
             0 => {
@@ -1263,7 +1274,18 @@ impl<'a> Gen<'a> {
                 12 => {
                     // Tuple destructuring.
                     let n = 2 + self.rng.below(2);
-                    let ts: Vec<T> = (0..n).map(|_| self.scalar_type()).collect();
+                    let mut ts: Vec<T> = (0..n).map(|_| self.scalar_type()).collect();
+                    let tuple_rets: Vec<Vec<T>> = self.prog.fns[..fidx.min(self.prog.fns.len())]
+                        .iter()
+                        .filter_map(|f| match &f.ret {
+                            T::Tuple(ts) if ts.iter().all(|t| matches!(t, T::Int(_) | T::Felt | T::Bool)) => Some(ts.clone()),
+                            _ => None,
+                        })
+                        .collect();
+                    if !tuple_rets.is_empty() && self.rng.bool() {
+                        ts = self.rng.pick(&tuple_rets).clone();
+                    }
+                    let n = ts.len();
                     let e = self.expr(&T::Tuple(ts.clone()), env, fidx, d);
                     let names: Vec<String> = (0..n).map(|_| self.fresh("t")).collect();
                     out.push(S::LetTuple(names.clone(), ts.clone(), e));
@@ -1301,20 +1323,103 @@ impl<'a> Gen<'a> {
         out
     }
 
+    /// A small function in a shape optimizations have special handling for: an aggregate taken
+    /// apart and put together again with its members permuted or repeated, an enum re-wrapped in
+    /// another variant of the same payload type.
+    fn idiom_fn(&mut self, fi: usize) -> Option<FnDef> {
+        let name = format!("f{fi}");
+        let p = self.fresh("a");
+        let var = |n: &str, t: &T| Var { name: n.to_string(), ty: t.clone(), mutable: false, moved: false, snap: false, pinned: false };
+        match self.rng.below(3) {
+            0 => {
+                // Tuple: destructure, rebuild with same-typed members shuffled.
+                let base = self.scalar_type();
+                let n = 2 + self.rng.below(3);
+                let ts: Vec<T> = (0..n).map(|_| if self.rng.chance(2, 3) { base.clone() } else { self.scalar_type() }).collect();
+                let t = T::Tuple(ts.clone());
+                let names: Vec<String> = (0..n).map(|_| self.fresh("t")).collect();
+                let mut env = vec![var(&p, &t)];
+                let mut body = vec![S::LetTuple(names.clone(), ts.clone(), E::Var(p.clone()))];
+                for (n, t) in names.iter().zip(&ts) {
+                    env.push(var(n, t));
+                }
+                if self.rng.chance(1, 3) {
+                    body.extend(self.stmts(&mut env, fi, 1, 1, false, &t));
+                }
+                let tail = E::TupleNew(
+                    ts.iter()
+                        .map(|ft| {
+                            let c: Vec<&String> = names.iter().zip(&ts).filter(|(_, t2)| *t2 == ft).map(|(n, _)| n).collect();
+                            E::Var((*self.rng.pick(&c)).clone())
+                        })
+                        .collect(),
+                );
+                Some(FnDef { name, params: vec![(p, t.clone(), ParamMode::Value)], ret: t, body, tail })
+            }
+            1 if !self.prog.structs.is_empty() => {
+                // Struct: members read one by one, rebuilt shuffled.
+                let si = self.rng.below(self.prog.structs.len());
+                let fts = self.prog.structs[si].fields.clone();
+                let t = T::Struct(si);
+                let names: Vec<String> = (0..fts.len()).map(|_| self.fresh("t")).collect();
+                let body: Vec<S> = names.iter().zip(&fts).enumerate().map(|(i, (n, ft))| S::Let(n.clone(), ft.clone(), false, E::Field(Box::new(E::Var(p.clone())), i))).collect();
+                let tail = E::StructNew(
+                    si,
+                    fts.iter()
+                        .map(|ft| {
+                            let c: Vec<&String> = names.iter().zip(&fts).filter(|(_, t2)| *t2 == ft).map(|(n, _)| n).collect();
+                            E::Var((*self.rng.pick(&c)).clone())
+                        })
+                        .collect(),
+                );
+                Some(FnDef { name, params: vec![(p, t.clone(), ParamMode::Value)], ret: t, body, tail })
+            }
+            2 if !self.prog.enums.is_empty() => {
+                // Enum: every variant re-wrapped in a variant of the same payload type.
+                let ei = self.rng.below(self.prog.enums.len());
+                let variants = self.prog.enums[ei].variants.clone();
+                let t = T::Enum(ei);
+                let mut arms = vec![];
+                for v in &variants {
+                    let same: Vec<usize> = variants.iter().enumerate().filter(|(_, v2)| *v2 == v).map(|(i, _)| i).collect();
+                    let target = *self.rng.pick(&same);
+                    match v {
+                        Some(_) => {
+                            let m = self.fresh("m");
+                            arms.push((Some(m.clone()), E::EnumNew(ei, target, Some(Box::new(E::Var(m))))));
+                        }
+                        None => arms.push((None, E::EnumNew(ei, target, None))),
+                    }
+                }
+                let tail = E::MatchEnum(ei, Box::new(E::Var(p.clone())), arms);
+                Some(FnDef { name, params: vec![(p, t.clone(), ParamMode::Value)], ret: t, body: vec![], tail })
+            }
+            _ => None,
+        }
+    }
+
     pub fn program(mut self) -> (Program, Vec<(usize, String)>) {
         for _ in 0..self.rng.below(3) {
             let n = 1 + self.rng.below(3);
-            let fields = (0..n).map(|_| self.scalar_type()).collect();
+            let base = self.scalar_type();
+            let fields = (0..n).map(|_| if self.rng.bool() { base.clone() } else { self.scalar_type() }).collect();
             self.prog.structs.push(StructDef { fields });
         }
         for _ in 0..self.rng.below(3) {
             let n = 2 + self.rng.below(2);
-            let variants = (0..n).map(|_| if self.rng.chance(2, 3) { Some(self.scalar_type()) } else { None }).collect();
+            let base = self.scalar_type();
+            let variants = (0..n).map(|_| if self.rng.chance(2, 3) { Some(if self.rng.bool() { base.clone() } else { self.scalar_type() }) } else { None }).collect();
             self.prog.enums.push(EnumDef { variants });
         }
         let nf = 1 + self.rng.below(4);
         for fi in 0..=nf {
             let is_main = fi == nf;
+            if !is_main && self.rng.chance(1, 3) {
+                if let Some(f) = self.idiom_fn(fi) {
+                    self.prog.fns.push(f);
+                    continue;
+                }
+            }
             let np = if is_main { 1 + self.rng.below(4) } else { self.rng.below(4) };
             let mut params = vec![];
             let mut env = vec![];
